@@ -62,10 +62,20 @@ FloatingConstant::FloatingConstant(const char* chars, unsigned int size)
 
 FloatingConstant::RepresentationSuffix FloatingConstant::representationSuffix() const
 {
-    if (F_.fOrF_)
-        return RepresentationSuffix::fOrF;
-    if (F_.l_ or F_.L_)
-        return RepresentationSuffix::lOrL;
+    // Only the last character may be a suffix: the digits of a hexadecimal
+    // floating constant may contain 'f' (6.4.4.2).
+    if (size() > 0) {
+        switch (*(end() - 1)) {
+            case 'f':
+            case 'F':
+                return RepresentationSuffix::fOrF;
+            case 'l':
+            case 'L':
+                return RepresentationSuffix::lOrL;
+            default:
+                break;
+        }
+    }
     return RepresentationSuffix::None;
 }
 
@@ -77,12 +87,20 @@ CharacterConstant::CharacterConstant(const char* chars, unsigned int size)
 
 CharacterConstant::EncodingPrefix CharacterConstant::encodingPrefix() const
 {
-    if (F_.L_)
-        return EncodingPrefix::L;
-    if (F_.u_)
-        return EncodingPrefix::u;
-    if (F_.U_)
-        return EncodingPrefix::U;
+    // The prefix is what precedes the opening quote, not any character of
+    // the constant itself (6.4.4.4).
+    if (size() > 0) {
+        switch (*begin()) {
+            case 'L':
+                return EncodingPrefix::L;
+            case 'u':
+                return EncodingPrefix::u;
+            case 'U':
+                return EncodingPrefix::U;
+            default:
+                break;
+        }
+    }
     return EncodingPrefix::None;
 }
 
